@@ -191,6 +191,72 @@ func Run(rep *hx.Report, props Props, tier string, sh hx.Shard, deadline time.Ti
 		rep.Sample(st.String())
 	}
 
+	// S3: large cores (field arithmetic far above 16 bits: 8000, 55440 and 2^20 cells).
+	if props.C01 || props.C04 {
+		larges := []uint64{8000, 100003}
+		if thorough {
+			larges = []uint64{8000, 55440, 100003, 1 << 20, 1000003}
+		}
+		for _, M := range larges {
+			vals := []uint64{0, 1, 2, M / 2, M/2 + 1, M - 2, M - 1, 46341 % M, 65536 % M}
+			if M >= 100000 {
+				// products of these exceed 2^32 (and 2^31, 2^33); 100003 and 1000003 are not powers of two,
+				// so that a truncation to 32 bits changes the residue
+				vals = []uint64{1, M/2 + 1, M - 1, 65537 % M, 92683 % M}
+			}
+			st := &State{M: M, P: 2, R: M, W: M, Core: make([]g.Instruction, M)}
+			for f := 0; f < hx.NForms; f++ {
+				if !sh.Mine(f) {
+					continue
+				}
+				if expired() {
+					return
+				}
+				op, _, am, bm := hx.Form(f)
+				if !thorough {
+					// quick: the arithmetic opcodes with direct / immediate / B-indirect operands
+					if op < g.ADD || op > g.MOD || am > g.B_INDIRECT || bm > g.B_INDIRECT {
+						continue
+					}
+				} else if M >= 1<<20 && (am > g.B_INDIRECT || bm > g.B_INDIRECT) {
+					continue
+				}
+				if M >= 100000 && !thorough && (am > g.IMMEDIATE || bm > g.IMMEDIATE) {
+					continue
+				}
+				for _, pc := range []uint64{0, M - 1} {
+					if !thorough && pc == 0 {
+						continue
+					}
+					for i := range st.Core {
+						st.Core[i] = g.Instruction{}
+					}
+					st.PC = pc
+					for _, a := range vals {
+						for _, b := range vals {
+							st.Core[pc] = hx.Mk(f, a, b)
+							// the cells the operands can reach get large fields too
+							for _, t := range []uint64{a, b} {
+								c := (pc + t) % M
+								if c != pc {
+									st.Core[c] = g.Instruction{Op: g.DAT, A: g.Address((M - 1 - t/3) % M), B: g.Address((M/2 + t) % M)}
+								}
+							}
+							ck.Check(st)
+							for _, t := range []uint64{a, b} {
+								if c := (pc + t) % M; c != pc {
+									st.Core[c] = g.Instruction{}
+								}
+							}
+						}
+					}
+				}
+			}
+			rep.Sample(st.String())
+		}
+		rep.Bound += fmt.Sprintf("; S3: M in %v, PC at the last cell (thorough: also the first), forms x 81 field pairs from {0,1,2,M/2,M/2+1,M-2,M-1,46341,65536} with large fields in the operand cells; for M >= 100003 five values whose products exceed 2^32 (quick: arithmetic opcodes only)", larges)
+	}
+
 	if !thorough {
 		return
 	}
